@@ -6,7 +6,7 @@ import ast
 import re
 
 from sa import journal
-from sa.core import AnalysisError, loc, short, unparse, walk_no_nested
+from sa.core import AnalysisError, loc, positions, short, unparse, walk_no_nested
 from sa.fold import EnumVal, Folder
 
 EXEMPT_DUMP = {"get_all_msgs"}  # documented unfiltered dump (dynamic, read-only SQL)
@@ -208,7 +208,7 @@ def run(ctx):
                                 if ph[0] == "set" and ph[1] == col_want:
                                     # the parameter, or the attribute it was just stored into (the same number on every path:
                                     # when the parameter is None the attribute keeps the live value, which is what is stored then)
-                                    ok = unparse(arg) == f"{val.id} - 1" or (unparse(arg) == f"{unparse(n.targets[0])} - 1" and n.lineno < s.call.lineno)
+                                    ok = unparse(arg) == f"{val.id} - 1" or (unparse(arg) == f"{unparse(n.targets[0])} - 1" and positions(v.fn)[id(n)] < positions(v.fn)[id(s.call)])
                         ctx.instance("C13.counter-encoding", cons, ok,
                                      f"{name}() sets {side} from `{val.id}` but does not store `{val.id} - 1` into {col_want}", loc(n))
                     else:
